@@ -45,6 +45,12 @@ def predBattery (s : Sys) : String :=
     "pel=" ++ tri (fun k => b2c (Pred.eventsLimit isDropped k sT)) dr,
     "pep=" ++ tri (fun k => b2c (Pred.eventsLimitPerProc timerFiredBy pnames k sT)) mtf,
     "ppp=" ++ String.ofList [ob2c (Pred.procPermutations pnames sT), ob2c (Pred.procPermutations pnames.reverse sT)],
+    -- processes in the order of their first mention (sender of a received message, owner of a fired timer) in the current run
+    "fm=" ++ ".".intercalate (((currentRunTrace tr).foldl (fun (acc : List Nat) e =>
+        match e with
+        | .recv _ src _ => if acc.contains src then acc else acc ++ [src]
+        | .tfired p _ => if acc.contains p then acc else acc ++ [p]
+        | _ => acc) []).map fun q => s!"p{q}"),
     "csd=" ++ tri (fun d => b2c (Pred.pruneStateDepth d sT)) D,
     -- short-circuit: the counting second rule of all_invariants is invoked only if the first one holds
     "sc=" ++ toString ((Pred.allInvariants [fun (c : Nat) x => (Pred.invStateDepth (D - 1) x, c + 1), fun c _ => (false, c + 1)] [0, 0] sT).2)
